@@ -5,6 +5,7 @@ package main
 // (engines E1/E2), value provenance (E3) and boolean value implication.
 
 import (
+	"sync"
 	"fmt"
 	"go/constant"
 	"go/token"
@@ -291,6 +292,13 @@ func fieldPath(v ssa.Value) (root ssa.Value, names []string, ok bool) {
 					continue
 				}
 			}
+		case *ssa.Call:
+			// a trivial getter of the module (func (x *T) getF() F { return x.f }) reads the field
+			if g := trivialGetter(x.Call.StaticCallee()); g != "" && len(x.Call.Args) == 1 {
+				names = append([]string{g}, names...)
+				cur = x.Call.Args[0]
+				continue
+			}
 		}
 		break
 	}
@@ -298,6 +306,45 @@ func fieldPath(v ssa.Value) (root ssa.Value, names []string, ok bool) {
 		return nil, nil, false
 	}
 	return cur, names, true
+}
+
+var getterCache sync.Map // *ssa.Function -> string
+
+// trivialGetter returns the field name when f only returns one field of its receiver.
+func trivialGetter(f *ssa.Function) string {
+	if f == nil || f.Pkg == nil || len(f.Blocks) != 1 || len(f.Params) != 1 || f.Signature.Recv() == nil {
+		return ""
+	}
+	if _, isMod := pkgShort[f.Pkg.Pkg.Path()]; !isMod {
+		return ""
+	}
+	if v, ok := getterCache.Load(f); ok {
+		return v.(string)
+	}
+	name := ""
+	var ret *ssa.Return
+	simple := true
+	for _, in := range f.Blocks[0].Instrs {
+		switch x := in.(type) {
+		case *ssa.FieldAddr, *ssa.Field, *ssa.DebugRef:
+		case *ssa.UnOp:
+			if x.Op != token.MUL {
+				simple = false
+			}
+		case *ssa.Return:
+			ret = x
+		default:
+			simple = false
+		}
+	}
+	if simple && ret != nil && len(ret.Results) == 1 {
+		getterCache.Store(f, "") // guard against recursion
+		if r, ns, ok := fieldPath(ret.Results[0]); ok && len(ns) == 1 && r == ssa.Value(f.Params[0]) {
+			name = ns[0]
+		}
+	}
+	getterCache.Store(f, name)
+	return name
 }
 
 // ---------------------------------------------------------------- matchers
